@@ -103,6 +103,31 @@ PLANS = {
                                              "user-dictionary dic_form is always '*' in the main generator (D18)",
                                              "determinism is checked in-process (std HashMap seeds differ per instance, so hash-order dependence would show)"],
     },
+    "C03": lambda tier: {
+        "level": "exploration",
+        "stages": [
+            main_stage(40, 300, tier, death_is_violation=True),
+            main_stage(40, 300, tier, build="rel", name="rel", death_is_violation=True),
+            main_stage(60, 120, tier, build="valgrind", name="valgrind", death_is_violation=True, shards=8),
+        ] + ([] if tier == "quick" else [
+            main_stage(60, 300, tier, build="asan", name="asan", death_is_violation=True),
+            dict(main_stage(60, 900, tier, build="miri", name="miri", death_is_violation=False), shards=16),
+        ]),
+        "require": ["morphemes_touched", "matrix_reads_seen_by_hook", "limit_worlds", "too_long_errors", "long_inputs_handled",
+                    "rel.morphemes_touched", "valgrind.morphemes_touched", "probe_scenarios"],
+        "rule": "seeded worlds (full random plugin stacks, cost extremes, compounds whose last unit is longer than declared, user "
+                "dictionaries, aligned and odd-address loads) x hostile texts (NUL/controls, combining marks, ZWJ, variation selectors, emoji "
+                "modifiers, astral/unassigned/private-use points, 18x NFKC expanders, 1-150 repeats of one character, dictionary keys and "
+                "near misses) x modes A/B/C x random field subsets on reused tokenizers; every 8th world probes the limits with inputs of "
+                "exactly 49148/49149/49150/49152/60000/70000 bytes and U+FDFA runs whose normalised length is 65495/65534/65535/65536/65537/"
+                "65568/90000 bytes, interleaved with ordinary inputs. Monitors: panic hook (site+message), process exit status, hooks H2/H3 "
+                "(out-of-range matrix/trie/table access), expected Ok/InputTooLong class, partition of every Ok result, every accessor of every "
+                "morpheme and of its A/B on-demand splits. Stages: debug-assertion+overflow-check build, release build, valgrind memcheck on "
+                "release; thorough adds ASan and Miri (no aliasing model) on reduced sets. distinct_nontrivial = distinct (world,mode,text) "
+                "that completed all accessor calls",
+        "assumptions": COMMON_ASSUMPTIONS + ["known findings D9, D10, D19 are generated only by their labelled probe scenarios",
+                                             "Miri runs with -Zmiri-disable-stacked-borrows (the tree deliberately breaks the aliasing models, DESIGN.md 2.2)"],
+    },
 }
 
 
